@@ -299,7 +299,11 @@ impl SDJWTVerifier {
 
         if let Some(Value::Array(digest_of_disclosures)) = nested_sd_jwt_claims.get(SD_DIGESTS_KEY)
         {
-            self.unpack_from_digests(&mut disclosed_claims, digest_of_disclosures)?;
+            self.unpack_from_digests(
+                &mut disclosed_claims,
+                digest_of_disclosures,
+                nested_sd_jwt_claims,
+            )?;
         }
 
         Ok(Value::Object(disclosed_claims))
@@ -309,6 +313,7 @@ impl SDJWTVerifier {
         &mut self,
         pre_output: &mut Map<String, Value>,
         digests_of_disclosures: &Vec<Value>,
+        sd_jwt_claims: &Map<String, Value>,
     ) -> Result<()> {
         for digest in digests_of_disclosures {
             let digest = digest
@@ -339,7 +344,13 @@ impl SDJWTVerifier {
                     .ok_or(Error::ConversionError("str".to_string()))?
                     .to_owned();
                 let value = disclosure[2].clone();
-                if pre_output.contains_key(&key) {
+                if key == SD_DIGESTS_KEY || key == SD_LIST_PREFIX {
+                    return Err(Error::InvalidDisclosure(format!(
+                        "Disclosed claim cannot be named `{}`",
+                        key
+                    )));
+                }
+                if pre_output.contains_key(&key) || sd_jwt_claims.contains_key(&key) {
                     return Err(Error::DuplicateKeyError(key.to_string()));
                 }
                 let unpacked_value = self.unpack_disclosed_claims(&value)?;
